@@ -80,8 +80,8 @@ pub fn convert_node(ast: &ASTTy, imp: &mut Imports, state: &State, ctx: &Context
         NodeTy::Str { lit, expressions } if expressions.is_empty() => Core::Str {
             string: lit.clone(),
         },
-        NodeTy::Str { lit, .. } => Core::FStr {
-            string: lit.clone(),
+        NodeTy::Str { lit, expressions } => Core::FStr {
+            string: interpolate(lit, &convert_vec(expressions, imp, state, ctx)?),
         },
 
         NodeTy::Undefined => Core::None,
@@ -321,6 +321,58 @@ pub fn convert_node(ast: &ASTTy, imp: &mut Imports, state: &State, ctx: &Context
     };
 
     Ok(core)
+}
+
+/// The text of a string in which the source of each interpolated expression is replaced by the
+/// Python source of that expression (the expressions are found as the lexer finds them).
+fn interpolate(lit: &str, expressions: &[Core]) -> String {
+    let (mut out, mut cur_expr) = (String::new(), String::new());
+    let (mut depth, mut back_slash) = (0, false);
+    let mut expressions = expressions.iter();
+
+    for c in lit.chars() {
+        let in_expr = depth > 0;
+        if !back_slash {
+            if in_expr {
+                cur_expr.push(c);
+            }
+            if c == '{' {
+                depth += 1;
+            } else if c == '}' {
+                depth -= 1;
+            }
+
+            if depth == 0 && !cur_expr.is_empty() {
+                cur_expr.pop(); // closing bracket
+                if !cur_expr.is_empty() {
+                    out.push_str(&match expressions.next() {
+                        Some(core) => python_in_string(core),
+                        None => cur_expr.clone(),
+                    });
+                }
+                cur_expr.clear();
+                out.push(c);
+                back_slash = false;
+                continue;
+            }
+        }
+
+        if !in_expr {
+            out.push(c);
+        }
+        back_slash = c == '\\';
+    }
+    out
+}
+
+/// Python source of an expression within a string delimited by double quotes.
+fn python_in_string(core: &Core) -> String {
+    let source = format!("{core}").trim_end().to_string();
+    if source.contains('"') && !source.contains('\'') && !source.contains('\\') {
+        source.replace('"', "'")
+    } else {
+        source
+    }
 }
 
 fn append_assign(core: &Core, assign_to: &Core, name: &Option<Name>, imp: &mut Imports) -> Core {
